@@ -123,10 +123,16 @@ func scenario(r *rand.Rand, o *hout.Out, idx int, store *memory.Storage, startSe
 	var got [][]byte
 	var gmu sync.Mutex
 	done := make(chan struct{})
+	lag := r.Intn(3) == 0   // a writer slower than the senders: queued messages wait in the outgoing buffer
+	reuse := r.Intn(2) == 0 // each sender re-populates and re-sends one message object of its own
+	lagR := rand.New(rand.NewSource(r.Int63()))
 	go func() {
 		for {
 			select {
 			case m := <-h.Outgoing():
+				if lag {
+					time.Sleep(time.Duration(lagR.Intn(150)) * time.Microsecond)
+				}
 				gmu.Lock()
 				got = append(got, m)
 				gmu.Unlock()
@@ -153,8 +159,12 @@ func scenario(r *rand.Rand, o *hout.Out, idx int, store *memory.Storage, startSe
 		wg.Add(1)
 		go func(t int) {
 			defer wg.Done()
+			m := fixgen.NewMarketDataRequest()
 			for i := 0; i < per; i++ {
-				m := fixgen.NewMarketDataRequest().SetMDReqID(fmt.Sprintf("t%d-%d", t, i))
+				if !reuse {
+					m = fixgen.NewMarketDataRequest()
+				}
+				m.SetMDReqID(fmt.Sprintf("t%d-%d", t, i))
 				if err := s.Send(m); err != nil {
 					return
 				}
@@ -182,7 +192,7 @@ func scenario(r *rand.Rand, o *hout.Out, idx int, store *memory.Storage, startSe
 	for i, m := range got {
 		q, _ := strconv.Atoi(field(m, "34"))
 		if q != want {
-			o.Fail("C05", "sequence-broken", fmt.Sprintf("scenario %d (side %d, %d threads x %d, GOMAXPROCS %d, buffer %d): message %d on the wire carries 34=%d, expected %d", idx, side, threads, per, procs, buf, i, q, want))
+			o.Fail("C05", "sequence-broken", fmt.Sprintf("scenario %d (side %d, %d threads x %d, GOMAXPROCS %d, buffer %d, lagging writer %v, reused message objects %v): message %d on the wire carries 34=%d, expected %d", idx, side, threads, per, procs, buf, lag, reuse, i, q, want))
 			break
 		}
 		want++
@@ -202,6 +212,8 @@ func scenario(r *rand.Rand, o *hout.Out, idx int, store *memory.Storage, startSe
 	o.Count(fmt.Sprintf("C05.threads=%d", threads))
 	o.Count(fmt.Sprintf("C05.gomaxprocs=%d", procs))
 	o.Count(fmt.Sprintf("C05.buffer=%d", buf))
+	o.Count(fmt.Sprintf("C05.lagging-writer=%v", lag))
+	o.Count(fmt.Sprintf("C05.reused-message-objects=%v", reuse))
 	o.Nontrivial("C05", fmt.Sprintf("%d/%d/%d/%d/%d/%d", side, threads, per, procs, buf, len(got)))
 	if len(got) < threads*per {
 		o.Fail("C05", "messages-missing", fmt.Sprintf("scenario %d: %d of %d application messages reached the wire", idx, len(got), threads*per))
